@@ -163,6 +163,7 @@ def run(ctx):
     same_name_contexts(ctx)
     nil_with_attributes(ctx)
     typed_members_and_repeating_groups(ctx)
+    attributes_named_like_python_words(ctx)
     plain_href_not_nil_and_envelope_attributes(ctx)
     outlined_presentations(ctx)
     times_and_mixed_use(ctx)
@@ -444,6 +445,30 @@ def plain_href_not_nil_and_envelope_attributes(ctx):
                     ctx.fail("a reply decodes to something else than the value the document encodes (an attribute named "
                              "href / a leaf that says it is not nil / an envelope attribute on a payload leaf)", meta,
                              repr(got), repr(exp))
+
+
+def attributes_named_like_python_words(ctx):
+    """XML attributes called `class`, `def` (names Python reserves) come back under the documented substitutes `_cls`,
+    `_dfn` - as members, with their typed values, next to ordinary attributes."""
+    schema = ('<xsd:element name="f"><xsd:complexType><xsd:sequence/></xsd:complexType></xsd:element><xsd:element '
+              'name="fResponse"><xsd:complexType><xsd:sequence><xsd:element name="t"><xsd:complexType><xsd:sequence>'
+              '<xsd:element name="v" type="xsd:string"/></xsd:sequence><xsd:attribute name="class" type="xsd:string"/>'
+              '<xsd:attribute name="def" type="xsd:int"/><xsd:attribute name="id" type="xsd:int"/></xsd:complexType>'
+              '</xsd:element></xsd:sequence></xsd:complexType></xsd:element>')
+    c = wsdlkit.client(wsdlkit.wsdl_doc(schema, "f", "fResponse"))
+    data = ('<e:Envelope xmlns:e="%s"><e:Body><fResponse xmlns="%s"><t class="k" def="3" id="4"><v>x</v></t></fResponse>'
+            '</e:Body></e:Envelope>' % (xmlread.ENV11, wsdlkit.TNS)).encode()
+    meta = {"stream": "attributes-named-like-python-words", "reply": data.decode()}
+    ctx.case(common.canon({"stream": meta["stream"]}), True)
+    try:
+        r = c.service.f(__inject={"reply": data})
+        got = [[str(k), type(v).__name__, str(v)] for k, v in r]
+    except Exception as e:
+        got = "%s: %s" % (type(e).__name__, e)
+    want = [["_cls", "Text", "k"], ["_dfn", "int", "3"], ["_id", "int", "4"], ["v", "Text", "x"]]
+    if got != want:
+        ctx.fail("a reply decodes to something else than the value the document encodes (attributes named like Python "
+                 "words)", meta, got, want)
 
 
 def typed_members_and_repeating_groups(ctx):
